@@ -641,6 +641,52 @@ def rule_ret(repo, tier):
     return res
 
 
+@guarded
+def rule_opview(repo, tier):
+    """cumops_ overwrites its buffer while it scans it.  The two operands handed to the user's operation at each doubling step are therefore COPIES of the
+    earlier / later blocks (index_select, clone, gather): "any associative operation" includes operations that return one of their operands (first, last,
+    a conditional select), and a returned view of the live buffer makes the write-back an overlapping self-copy (an error) or, worse, reads positions the
+    same step has already overwritten."""
+    res = RuleResult('C12.OPVIEW', 'cumops_: the operands passed to the user operation are copies of the selected blocks (index_select / clone / gather), not views '
+                     '(narrow / slices / select) of the buffer that the same step writes', floor=1)
+    f = repo.func(OPS, 'cumops_')
+    opname = f.pos_params[2] if len(f.pos_params) > 2 else 'ops'
+    defs = {}
+    for n in ast.walk(f.node):
+        if isinstance(n, ast.Assign):
+            tg = n.targets[0]
+            if isinstance(tg, ast.Name):
+                defs[tg.id] = n.value
+            elif isinstance(tg, ast.Tuple) and isinstance(n.value, ast.Tuple) and len(tg.elts) == len(n.value.elts):
+                for t_, v_ in zip(tg.elts, n.value.elts):
+                    if isinstance(t_, ast.Name):
+                        defs[t_.id] = v_
+    calls = [c for c in ast.walk(f.node) if isinstance(c, ast.Call) and isinstance(c.func, ast.Name) and c.func.id == opname]
+    if not calls:
+        raise AnalysisError('C12.OPVIEW: cumops_ never calls its operation')
+    VIEWS = {'narrow', 'select', 'view', 'transpose', 'unbind', 'split', 'chunk', 'unfold', 'diagonal', 'expand', 'squeeze', 'unsqueeze', 'movedim', 'permute', 'as_strided'}
+    COPIES = {'index_select', 'clone', 'gather', 'take', 'take_along_dim', 'masked_select', 'repeat', 'detach_clone'}
+    for c in calls:
+        for a in c.args:
+            e = a
+            for _ in range(3):
+                if isinstance(e, ast.Name) and e.id in defs:
+                    e = defs[e.id]
+            kind = 'unknown'
+            if isinstance(e, ast.Call) and isinstance(e.func, ast.Attribute):
+                kind = 'copy' if e.func.attr in COPIES else ('view' if e.func.attr in VIEWS else 'unknown')
+            elif isinstance(e, ast.Call) and (dotted(e.func) or '').split('.')[-1] in COPIES:
+                kind = 'copy'
+            elif isinstance(e, ast.Subscript):
+                kind = 'view' if not any(isinstance(x, (ast.List, ast.Call)) for x in ast.walk(e.slice)) else 'copy'
+            res.inst({'function': f.fq, 'operand': src(a)[:40], 'defined as': src(e)[:50], 'kind': kind}, (src(c)[:40], src(a)[:40]))
+            if kind == 'view':
+                res.add(Finding('C12.OPVIEW', f, 'the operation receives `%s` = `%s`, a VIEW of the buffer the same step overwrites: an associative operation that returns one '
+                                'of its operands (first / last / select) makes the write-back an overlapping self-copy' % (src(a)[:30], src(e)[:50]), node=c,
+                                construct='operand is a view|' + src(e)[:40]))
+    return res
+
+
 def rules(repo, tier):
     from ..optional import rule_optional
     from ..mode import mode_rules
@@ -648,6 +694,6 @@ def rules(repo, tier):
     from ..docsig import rule_docsig
     from ..axisdefault import rule_axisdefault
     from ..stale import rule_stale
-    return [rule_ki(repo, tier), rule_role(repo, tier), rule_ret(repo, tier), rule_sb(repo, tier), rule_clone_alias(repo, tier), rule_deleg(repo, tier), rule_ext(repo, tier), rule_inplace(repo, tier), rule_negdim(repo, tier), rule_memo12(repo, tier),
+    return [rule_ki(repo, tier), rule_role(repo, tier), rule_ret(repo, tier), rule_opview(repo, tier), rule_sb(repo, tier), rule_clone_alias(repo, tier), rule_deleg(repo, tier), rule_ext(repo, tier), rule_inplace(repo, tier), rule_negdim(repo, tier), rule_memo12(repo, tier),
             rule_stale(repo, 'C12.STALE', [(OPS, 'cumops_')]), rule_optional(repo, 'C12.OPT', [OPS])] + mode_rules(repo, 'C12', [OPS]) + [rule_callsig(repo, 'C12.SIG', [OPS]), rule_docsig(repo, 'C12.DOC', [OPS])] + [
             rule_axisdefault(repo, 'C12.AXDEF', [OPS])]
